@@ -202,8 +202,25 @@ CHECKS = [
 ]
 
 _PENDING = "check not built yet in this session (planned, see DESIGN.md section 5)"
+CHECKS.append({
+    "property_id": "C13",
+    "technique": "contract-based deductive verification (pyvc over the real cloning/lookup/inheritance code; loop invariants with a ghost log and a ghost rank function; z3)",
+    "category": "proof",
+    "text": "iter_cloneable_placeholders summarised from its real generator body as the filtered subsequence (kept iff type not latent); "
+            "clone_placeholder per cloneable type (never raises -- ph_basename total --, one add_placeholder call with equal type/orient/sz/idx, "
+            "fresh id and name); the cloning loops of SlideShapes and NotesSlide by a loop invariant over the underlying index: log of added "
+            "placeholders = map(clone, filter(cloneable, first k)) with rank function COUNT, ids/names pairwise distinct and new; "
+            "LayoutPlaceholders.get / MasterPlaceholders.get first-match invariants; left/top/width/height of every inheriting placeholder "
+            "class (own value wins, else base's, else None); the three _base_placeholder lookups (layout map total on all 16 schema types); "
+            "Slides.add_slide / PresentationPart.add_slide / SlidePart.new / CT_SlideIdList.add_sldId call-order and argument contracts.",
+    "note": "Assumed: add_placeholder / new_placeholder_sp put exactly that shape last in the tree (C05/C10 obligations; probed natively); "
+            "C06 allocator contracts applied to 'initial ids + ids added so far'; _add_sldId appends (C10 obligation). Whole-deck behaviour "
+            "(every layout of the default deck, 120/1500 random layouts, notes slide, save/reopen) is the bounded C13.native_layouts job, never "
+            "counted as proved. F13a/F13b (sldImg / hdr KeyError) repaired by fix: commits.",
+})
+
 NOT_APPLICABLE = [
     {"property_id": p, "reason": _PENDING}
-    for p in ["C01", "C02", "C03", "C07", "C12", "C13", "C16",
+    for p in ["C01", "C02", "C03", "C07", "C12", "C16",
               ]
 ]
